@@ -16,12 +16,18 @@ Oracle clauses
   C10.error       an input for which Snowflake documents an error (TO_DECIMAL('abc'), out of range, invalid date) is
                   rejected, not answered with a value (forms marked rej_ok: value = reference, or rejected)
   C10.context     the expression gives the same (documented) value in WHERE, nested in another rewritten function, in a
-                  CTE, in a view body, in INSERT … SELECT and in UPDATE … SET as in the select list
+                  CTE, in a view body, in INSERT … SELECT and in UPDATE … SET as in the select list; and as an operand: left /
+                  right of a comparison, AND / OR, under NOT, before IS NULL, in IN / BETWEEN / CASE, in arithmetic, ||
+                  and casts (table mc.ref.sf_functions.operator_contexts), and with compound arguments written without
+                  parentheses (OR, AND, NOT, comparison, IN, + - *, ||, CASE: nest family inner=COMPOUND[…])
   C10.fetch       boundary values of the numeric conversions are the documented ones through fetchone / fetchmany / fetchall of a
                   tuple cursor and of a DictCursor
   C10.stmt        statement-level constructs (RANDOM(seed), SAMPLE … SEED, IDENTIFIER(), VALUES columnN, ARRAY_AGG,
                   alias reuse in JOIN … ON): rows / column names / repeatability as documented, in SELECT statements and
-                  again inside INSERT … SELECT, CREATE TABLE AS, a view, a top-level UNION ALL and UPDATE … SET = (subquery)
+                  again inside INSERT … SELECT, CREATE TABLE AS, a view, a top-level UNION ALL and UPDATE … SET = (subquery);
+                  the table-like ones (VALUES, IDENTIFIER('table'), SAMPLE) as first and second table of JOIN / LEFT JOIN /
+                  CROSS JOIN / comma join, alone and inside a CTE, a subquery, a view, CTAS and INSERT … SELECT: rows,
+                  column names (description, DictCursor keys, SELECT *), references (v.column1)
 
 Not demanded (deliberately left open, see the comments at the alphabets): Python ``int`` vs ``Decimal`` for scale 0
 (C01 owns the connector type mapping); description of a NULL result and all of description's names (C06/C02);
@@ -2096,7 +2102,8 @@ def run(ctx: core.Ctx):
     ctx.rule = (
         "complete product of the written-out argument alphabets of every construct (module section ALPHABETS); each "
         "expression evaluated by the real fakesnow in a SELECT list (batches of 16, failing batches re-run one expression "
-        "per statement) and compared with mc/ref/sf_functions.py; flagged expressions additionally in 6 contexts; "
+        "per statement) and compared with mc/ref/sf_functions.py; flagged expressions additionally in 6 statement contexts "
+        "and in every operand position of sf.operator_contexts; "
         "statement-level constructs as scripted cases; non-trivial = expectation is a non-NULL value or a documented error"
     )
     ctx.assumptions = [
@@ -2117,6 +2124,7 @@ def run(ctx: core.Ctx):
     ctx.extra["context_cases_flagged"] = sum(1 for c in cases if c["ctx"])
     ctx.extra["fetch_path_cases_flagged"] = sum(1 for c in cases if c["fetch"])
     ctx.extra["statement_cases"] = len(stmt_cases(tier))
+    ctx.extra["joined_table_position_cases"] = sum(1 for c in stmt_cases(tier) if c["check"] == "joined")
     ctx.extra["not_demanded_dropped"] = stats.get("not_demanded", 0)
     ctx.extra["cases_per_construct"] = {}
     for c in cases:
